@@ -77,6 +77,16 @@ def run(tier, argv):
     for m in vlib.read_ndjson(eout):
         bad.append({"what": m["what"], "op": "enum.Check" if m["what"] == "robust" else "enum." + m["want"], "input": bytes(m["bytes"]).decode("latin-1"), "kind": m["got"].get("kind"),
                     "pos": m["got"].get("pos"), "srclen": len(m["bytes"]), "file": "e", "msg": (m["got"].get("msg") or m["got"].get("panic") or "")[:300]})
+    gpr, gr = jsongraph.export_regex_graph(work, rep, "r")
+    rrout = work.path("rrobust.ndjson")
+    p = vlib.run_harness(hbin, ["c05graph", "-graph", gpr, "-out", rrout, "-sut", "regex", "-robust"], timeout=3000)
+    if p.returncode != 0:
+        raise vlib.Infra("c05graph -robust (regex) failed: " + p.stderr.decode()[-2000:])
+    rs3 = semcommon.summary_of(p.stderr)
+    rep.notes["regex_cover"] = {k: rs3[k] for k in ("states", "transitions", "tests", "mismatches")}
+    for m in vlib.read_ndjson(rrout):
+        bad.append({"what": m["what"], "op": "regex.Check" if m["what"] == "robust" else "regex." + m["want"], "input": bytes(m["bytes"]).decode("latin-1"), "kind": m["got"].get("kind"),
+                    "pos": m["got"].get("pos"), "srclen": len(m["bytes"]), "file": "@r", "msg": (m["got"].get("msg") or m["got"].get("panic") or "")[:300]})
     ops = {}
     for e in lines:
         k = e["op"] + ":" + e["kind"]
